@@ -358,6 +358,28 @@ def run_impl_ext(case: dict):
             else:
                 nums = [y_, int(parts[2]), int(parts[3]), int(parts[4]), int(parts[5]), int(parts[6]) * 10 ** 6 + int(parts[7])]
         return ';'.join(map(str, nums)) + ';' + tzv
+    if op == 'xcls':
+        # comparison / subtraction of two date/time values of DIFFERENT Python classes under an implicit timezone
+        from elementpath.datatypes import DateTime, DateTimeStamp, Date
+        a, b, itz, form = case['a'], case['b'], case.get('itz'), case['form']
+        variables = None
+        if form == 'stamp':            # XSD 1.1 parser: xs:dateTimeStamp literal against an xs:dateTime literal
+            left = "xs:dateTimeStamp('%s')" % lexical('dt11', a)
+            right, pv, xp3 = xs_ctor('dt11', b), '1.1', True
+        elif form == 'var11':          # default (XSD 1.0) parser, literals are DateTime10/Date10; the variable holds a 1.1-class object
+            left, right, pv, xp3 = '$d', xs_ctor(case['cls'][:-2] + '10', b), '1.0', False
+            variables = {'d': build(case['cls'][:-2] + '11', a)}
+        else:                          # 'varstamp': a DateTimeStamp object in a variable against an XSD 1.1 literal
+            left, right, pv, xp3 = '$d', xs_ctor('dt11', b), '1.1', False
+            s_, u_ = divmod(a[3], 10 ** 6)
+            variables = {'d': DateTimeStamp(a[0], a[1], a[2], s_ // 3600, s_ // 60 % 60, s_ % 60, u_, tzobj(a[4]))}
+        if case.get('swap'):
+            left, right = right, left
+        if case['k'] == 'cmp':
+            return ''.join('1' if hist_eval(pv, f'{left} {o} {right}', variables, itz, xp3=xp3)[0] else '0'
+                           for o in (('<', '<=', '=', '>', '>=') if case.get('general') else ('lt', 'le', 'eq', 'gt', 'ge')))
+        r = hist_eval(pv, f'{left} - {right}', variables, itz, xp3=xp3)[0]
+        return str(dur_us(r))
     if op == 'seqfn':
         # two-element sequences through fn:max/min/distinct-values/index-of/deep-equal/sort (XPath 3.1 parser)
         ck, fn = case['cls'], case['fn']
@@ -392,7 +414,7 @@ def run_impl(case: dict) -> str:
     """the real code on one case, canonical text (same shape as the driver's `model=` field)"""
     from elementpath.datatypes import DayTimeDuration, YearMonthDuration, Duration
     op, ck, via = case['op'], case.get('cls', 'dt10'), case.get('via', 'api')
-    if op in ('tmk', 'tadd', 'tsub', 'tdiff', 'tcmp', 'tadjust', 'gmk', 'gcast', 'gcmp', 'cmpctx', 'durop', 'dcast', 'lexdt', 'seqfn', 'durdiv', 'fmtcomp'):
+    if op in ('tmk', 'tadd', 'tsub', 'tdiff', 'tcmp', 'tadjust', 'gmk', 'gcast', 'gcmp', 'cmpctx', 'durop', 'dcast', 'lexdt', 'seqfn', 'durdiv', 'fmtcomp', 'xcls'):
         try:
             return run_impl_ext(case)
         except Exception as e:
@@ -520,6 +542,12 @@ def line_of(case: dict) -> str:
         return f'op=comp A={vstr(case["a"])} V=10 PIC=1'     # era year = the internal year number
     if op == 'durdiv':
         return 'op=pyord N=1'      # the quotient is checked against an exact-rational oracle in compare()
+    if op == 'xcls':
+        a, b = (tuple(case['b']), tuple(case['a'])) if case.get('swap') else (tuple(case['a']), tuple(case['b']))
+        if case['k'] == 'cmp':
+            itz = f' ITZ={case["itz"]}' if case.get('itz') is not None else ''
+            return f'op=cmp A={vstr(a)} B={vstr(b)}{itz}'
+        return f'op=diff A={vstr(fill_tz(a, case.get("itz")))} B={vstr(fill_tz(b, case.get("itz")))}'
     if op in ('tcmp', 'cmpctx', 'seqfn'):
         itz = f' ITZ={case["itz"]}' if case.get('itz') is not None else ''
         return f'op={"tcmp" if op == "tcmp" else "cmp"} A={vstr(case["a"])} B={vstr(case["b"])}{itz}'
@@ -763,7 +791,7 @@ def gen_ext_cases(rng, n):
             cases.append({'op': 'tmk', 'via': via, 'ver': ver,
                           'f': [rng.choice([0, 23, 24, 24, 25, rng.randint(0, 23)]), rng.choice([0, 0, 59, 60, rng.randint(0, 59)]),
                                 rng.choice([0, 0, 59, 60, rng.randint(0, 59)]), rng.choice([0, 0, 1, 999999]), rng.choice(TZS)]})
-        elif r < 0.30:
+        elif r < 0.22:
             t = gen_time(rng)
             dur = rng.choice([0, 1, -1, US, -US, US - 1, 3600 * 10 ** 6, -3600 * 10 ** 6, US - t[3], -t[3], -t[3] - 1,
                               rng.randrange(-3 * US, 3 * US), rng.randrange(-10 ** 17, 10 ** 17),
@@ -775,25 +803,25 @@ def gen_ext_cases(rng, n):
             if abs(dur) // US >= TD_MAX_DAYS:
                 via = 'api'
             cases.append({'op': op, 'via': via, 'ver': ver, 'a': t, 'dur': dur})
-        elif r < 0.40:
+        elif r < 0.30:
             itz = rng.choice([None, None, 0, 840, -300]) if via == 'xpath' else None
             cases.append({'op': 'tdiff', 'via': via, 'ver': ver, 'a': gen_time(rng), 'b': gen_time(rng), 'itz': itz})
-        elif r < 0.52:
+        elif r < 0.40:
             a = gen_time(rng)
             b = gen_time(rng) if rng.random() < 0.6 else (2000, 1, 1, (a[3] - (a[4] or 0) * UM + (rng.choice(TZS) or 0) * UM) % US, rng.choice(TZS))
             cases.append({'op': 'tcmp', 'ver': ver, 'a': a, 'b': b, 'itz': rng.choice([None, None, 0, 840, -300, 330])})
-        elif r < 0.60:
+        elif r < 0.47:
             cases.append({'op': 'tadjust', 'ver': ver, 'a': gen_time(rng), 'tz2': rng.choice([None, 0, 840, -840, 330, -300, rng.randint(-840, 840)])})
-        elif r < 0.78:
+        elif r < 0.62:
             kind = rng.choice(list(G_KINDS))
             y = rng.choice([0, 1, -1, -4, -5, 4, 2000, 9999, 10000, -10000, 12345678, gen_year(rng, False)])
             cases.append({'op': 'gmk', 'via': via, 'ver': ver, 'k': kind,
                           'f': [y, rng.choice([0, 1, 2, 2, 12, 13, rng.randint(1, 12)]), rng.choice([0, 1, 28, 29, 30, 31, 32]), rng.choice(TZS)]})
-        elif r < 0.86:
+        elif r < 0.69:
             ck = rng.choice(['dt10', 'dt11', 'd10', 'd11'])
             v = gen_value(rng, ck, allow_huge=False)
             cases.append({'op': 'gcast', 'k': rng.choice(list(G_KINDS)), 'cls': ck, 'a': v})
-        elif r < 0.93:
+        elif r < 0.75:
             kind = rng.choice(list(G_KINDS))
             fa = [rng.choice([1, -1, 2000, 2001, -5, 10000]), rng.choice([1, 2, 3, 12]), rng.choice([1, 2, 28, 29]), rng.choice(TZS)]
             fb = list(fa) if rng.random() < 0.5 else [rng.choice([1, -1, 2000, 2001, -5, 10000]), rng.choice([1, 2, 3, 12]), rng.choice([1, 2, 28, 29]), None]
@@ -801,7 +829,7 @@ def gen_ext_cases(rng, n):
             if fa[1] == 2 and fa[2] == 29 and kind == 'gMonthDay':
                 pass
             cases.append({'op': 'gcmp', 'ver': ver, 'k': kind, 'fa': fa, 'fb': fb, 'itz': rng.choice([None, None, 0, 840, -300])})
-        elif r < 0.945:
+        elif r < 0.81:
             ck = rng.choice(['dt10', 'dt11', 'd10', 'd11'])
             v = gen_value(rng, ck, allow_huge=False)
             w = gen_target_near(rng, v, ck) if rng.random() < 0.7 else of_local(local_us(v) - ((v[4] or 0) - (rng.choice(TZS) or 0)) * UM, rng.choice(TZS))
@@ -809,11 +837,29 @@ def gen_ext_cases(rng, n):
                 w = w[:3] + (0,) + w[4:]
             cases.append({'op': 'seqfn', 'cls': ck, 'fn': rng.choice(['max', 'min', 'distinct', 'index-of', 'deep-equal', 'sort']),
                           'a': v, 'b': w, 'itz': rng.choice([None, 0, 840, -840, -300, 330])})
-        elif r < 0.95:
+        elif r < 0.85:
             ck = rng.choice(['dt10', 'dt11', 'd10', 'd11', 't'])
             v = gen_time(rng) if ck == 't' else gen_value(rng, ck, allow_huge=False)
             cases.append({'op': 'fmtcomp', 'cls': ck, 'a': v})
-        elif r < 0.96:
+        elif r < 0.90:
+            form = rng.choice(['stamp', 'var11', 'var11', 'varstamp'])
+            ck = 'dt11' if form != 'var11' else rng.choice(['dt11', 'd11'])
+            v = gen_value(rng, ck, allow_huge=False)
+            if not 1 <= v[0] <= 9999:
+                v = (rng.randint(1, 9999), 1, 28) + v[3:]
+            if form != 'var11' and v[4] is None:
+                v = v[:4] + (rng.choice([0, 300, -420]),)          # a dateTimeStamp has a timezone
+            w = gen_target_near(rng, v, ck)
+            w = w[:4] + (rng.choice([None, None, w[4]]),)
+            if is_date(ck):
+                w = w[:3] + (0,) + w[4:]
+            k = 'diff' if form == 'varstamp' else rng.choice(['cmp', 'cmp', 'diff'])
+            cases.append({'op': 'xcls', 'form': form, 'cls': ck, 'k': k, 'a': v, 'b': w, 'itz': rng.choice([None, 300, 840, -300, 330, 0]),
+                          'swap': rng.random() < 0.5,
+                          # general comparison of xs:dateTimeStamp with xs:dateTime is XPTY0004 on the reference tree (operand type rule
+                          # of the general comparisons, property C07; reported to the coordinator): value comparisons only there
+                          'general': form == 'var11' and rng.random() < 0.4})
+        elif r < 0.93:
             ck = rng.choice(['dt10', 'dt11', 'd10', 'd11'])
             cases.append({'op': 'dcast', 'cls': ck, 'to': rng.choice(['date', 'dateTime']), 'a': gen_value(rng, ck, allow_huge=False)})
         else:
@@ -1142,6 +1188,10 @@ EXT_CORPUS = [
     {'op': 'cmpctx', 'cls': 'dt10', 'a': (2002, 2, 1, 0, None), 'b': (2002, 1, 31, 74220 * 10 ** 6, 0), 'itz': 840},   # F11n (fixed)
     {'op': 'seqfn', 'cls': 'dt10', 'fn': 'max', 'a': (2002, 2, 1, 0, None), 'b': (2002, 1, 31, 74220 * 10 ** 6, 0), 'itz': 840},   # F11t
     {'op': 'seqfn', 'cls': 'dt10', 'fn': 'distinct', 'a': (2002, 2, 1, 0, None), 'b': (2002, 1, 31, 36000 * 10 ** 6, 0), 'itz': 840},
+    {'op': 'xcls', 'form': 'stamp', 'cls': 'dt11', 'k': 'cmp', 'a': (2000, 1, 1, 43200 * 10 ** 6, 0), 'b': (2000, 1, 1, 61200 * 10 ** 6, None), 'itz': 300},
+    {'op': 'xcls', 'form': 'var11', 'cls': 'dt11', 'k': 'cmp', 'a': (2000, 1, 1, 43200 * 10 ** 6, 0), 'b': (2000, 1, 1, 61200 * 10 ** 6, None), 'itz': 300, 'swap': True},
+    {'op': 'xcls', 'form': 'var11', 'cls': 'd11', 'k': 'diff', 'a': (2000, 1, 1, 0, None), 'b': (2000, 1, 1, 0, 0), 'itz': 300},
+    {'op': 'xcls', 'form': 'varstamp', 'cls': 'dt11', 'k': 'diff', 'a': (2000, 1, 1, 43200 * 10 ** 6, 0), 'b': (2000, 1, 1, 61200 * 10 ** 6, None), 'itz': 300},
     {'op': 'fmtcomp', 'cls': 'dt11', 'a': (-820, 3, 7, 32703250000, 330)}, {'op': 'fmtcomp', 'cls': 'd10', 'a': (-1, 3, 7, 0, None)},
     {'op': 'fmtcomp', 'cls': 't', 'a': (2000, 1, 1, 1, 0)},
     {'op': 'durdiv', 'k': 'dt', 'x': 0, 'y': 0}, {'op': 'durdiv', 'k': 'ym', 'x': 0, 'y': 0}, {'op': 'durdiv', 'k': 'ym', 'x': 1, 'y': 3}, {'op': 'durdiv', 'k': 'ym', 'x': 40, 'y': -16}, {'op': 'durdiv', 'k': 'dt', 'x': US, 'y': 7 * 10 ** 6},
@@ -1151,7 +1201,8 @@ EXT_CORPUS = [
 
 
 # ----------------------------------------------------------------------- correspondence
-SITES = {'fmtcomp': 'fn:format-dateTime/date/time numeric components [Y][E][M][D][H][m][s][f][Z]',
+SITES = {'xcls': 'implicit_timezone_operands / comparison and minus operators on operands of different classes',
+         'fmtcomp': 'fn:format-dateTime/date/time numeric components [Y][E][M][D][H][m][s][f][Z]',
          'seqfn': 'fn:max/min/distinct-values/index-of/deep-equal/sort on date/time values', 'durdiv': 'duration div duration',
          'lexdt': 'AbstractDateTime.fromstring (pattern, year/microsecond handling) + __str__',
          'durop': 'YearMonthDuration/DayTimeDuration __add__ __sub__ __mul__ __truediv__', 'dcast': 'DateTime.make / Date.make',
@@ -1671,15 +1722,28 @@ REUSE_TEMPLATES = [
 ]
 
 
+REUSE_PATHS = ['evaluate', 'select', 'Selector.select', 'Selector.iter_select', 'module.select', 'module.iter_select',
+               'module.select', 'module.iter_select', 'module.select.item', 'module.iter_select.item', 'Selector.select.item']
+
+
+def tz_arg(itz, as_string):
+    """the `timezone=` keyword of the public entry points: a Timezone object or its string form"""
+    if itz is None:
+        return None
+    return (tz_lex(itz) if as_string else tzobj(itz))
+
+
 def gen_reuse(rng):
     ck = rng.choice(['dt10', 'dt11', 'd10', 'd11', 't'])
-    kind = rng.choice(['adjust', 'adjust1', 'adjustvar', 'adjustvar', 'add', 'comp', 'cmp', 'diff'])
+    kind = rng.choice(['adjust', 'adjust1', 'adjust1', 'adjustvar', 'adjustvar', 'add', 'comp', 'cmp', 'cmp', 'diff', 'diff', 'implicit'])
     proto = gen_hist(rng, ck=ck, mode='var')
     base = tuple(proto['a'])
     if kind == 'adjust':
         st = ['adjust', rng.choice(HIST_TZ2)]
     elif kind == 'adjust1':
         st = ['adjust1']                 # the implicit timezone of each call's context is the new timezone
+    elif kind == 'implicit':
+        st = ['implicit']                # fn:implicit-timezone() of each call's context
     elif kind == 'adjustvar':
         st = ['adjustvar']               # the new timezone comes from the variable $z of each call
     elif kind == 'add':
@@ -1698,7 +1762,7 @@ def gen_reuse(rng):
         v = tuple(gen_hist(rng, ck=ck, mode='var')['a'])
         if rng.random() < 0.3:
             v = base                                     # the same value again after others
-        args.append([list(v), rng.choice([None, None, -300, 0, 840]), rng.choice(['evaluate', 'select', 'Selector.select', 'Selector.iter_select']),
+        args.append([list(v), rng.choice([-300, 0, 840, 330]) if kind == 'implicit' else rng.choice([None, None, -300, 0, 840, 330]), rng.choice(REUSE_PATHS),
                      rng.choice(HIST_TZ2)])
     return {'op': 'reuse', 'cls': ck, 'step': st, 'args': args}
 
@@ -1711,6 +1775,9 @@ def compare_reuse(run: Run, cases: list, record=True) -> list:
     subs = []
     for c in cases:
         for v, itz, _, tz2 in c['args']:
+            if c['step'][0] == 'implicit':
+                subs.append({'op': 'pyord', 'n': 1})       # placeholder line: the expectation is the context's own timezone
+                continue
             st_ = ['adjust', tz2] if c['step'][0] == 'adjustvar' else c['step']
             subs.append(hist_subcases({'cls': c['cls'], 'a': v, 'itz': itz, 'steps': [st_]})[0])
     answers = iter(run.driver('C11', [line_of(sc) for sc in subs]))
@@ -1718,13 +1785,17 @@ def compare_reuse(run: Run, cases: list, record=True) -> list:
     for c in cases:
         ck, st = c['cls'], c['step']
         ver = '1.0' if ck == 't' else version_of(ck)
-        exprs = ['adjust-%s-to-timezone($d, $z)' % _tname(ck)] if st[0] == 'adjustvar' else step_exprs(ck, st)
+        exprs = ['adjust-%s-to-timezone($d, $z)' % _tname(ck)] if st[0] == 'adjustvar' else ['implicit-timezone()'] if st[0] == 'implicit' \
+            else step_exprs(ck, st)
         expr = exprs[0] if len(exprs) == 1 else '(' + ', '.join(exprs) + ')'
         parser = _PARSERS.get(('reuse', ver))
         if parser is None:
             parser = _PARSERS[('reuse', ver)] = XPath2Parser(xsd_version=ver)
         token = parser.parse(expr)
         selector = Selector(expr, parser=XPath2Parser, xsd_version=ver)
+        expr_item = expr.replace('$d', '.')
+        selector_item = Selector(expr_item, parser=XPath2Parser, xsd_version=ver)
+        import elementpath as _ep
         if record:
             run.stats.case({'reuse': c}, nontrivial=True)
             run.stats.count('op:reuse')
@@ -1733,6 +1804,9 @@ def compare_reuse(run: Run, cases: list, record=True) -> list:
             ans = next(answers)
             model, spec, _ = parse_answer(ans)
             tags = finding_tags(ans)
+            if st[0] == 'implicit':
+                model = spec = str(itz * UM)
+                tags = []
             try:
                 obj = build_obj(ck, tuple(v))
                 before = obj_state(obj)
@@ -1744,10 +1818,27 @@ def compare_reuse(run: Run, cases: list, record=True) -> list:
                     r = list(token.select(XPathContext(root=_ROOT[0], **kw)))
                 elif path == 'Selector.select':
                     r = selector.select(_ROOT[0], **kw)
-                else:
+                elif path == 'Selector.iter_select':
                     r = list(selector.iter_select(_ROOT[0], **kw))
+                else:
+                    # the module-level entry points build parser and context from their keyword arguments;
+                    # `timezone=` as a Timezone object or as its string form, the value as `variables=` or as `item=`
+                    kw2 = {'variables': kw['variables'], 'timezone': tz_arg(itz, as_string=(k % 2 == 0)), 'xsd_version': ver}
+                    if path == 'module.select':
+                        r = _ep.select(_ROOT[0], expr, parser=XPath2Parser, **kw2)
+                    elif path == 'module.iter_select':
+                        r = list(_ep.iter_select(_ROOT[0], expr, parser=XPath2Parser, **kw2))
+                    elif path == 'module.select.item':
+                        r = _ep.select(None, expr_item, parser=XPath2Parser, item=obj, **kw2)
+                    elif path == 'module.iter_select.item':
+                        r = list(_ep.iter_select(None, expr_item, parser=XPath2Parser, item=obj, **kw2))
+                    else:
+                        r = selector_item.select(None, item=obj, variables=kw['variables'], timezone=kw2['timezone'])
                 items = r if isinstance(r, list) else [r]
-                res = step_canon(ck, ['adjust'] if st[0] == 'adjustvar' else st, items)
+                if st[0] == 'implicit':
+                    res = str(dur_us(items[0])) if len(items) == 1 else '?' + repr(items)
+                else:
+                    res = step_canon(ck, ['adjust'] if st[0] == 'adjustvar' else st, items)
                 after = obj_state(obj)
             except Exception as e:
                 res, before, after = err_text(e), '', ''
@@ -1785,7 +1876,8 @@ def correspond(run: Run) -> None:
         'boundaries, leap days, 1st of January with a time part), ± yearMonthDuration (incl. era crossings), '
         'difference, the five comparisons, adjust-dateTime-to-timezone, lexical year numbering (string(), '
         'year-from-*), duration comparison, CPython date.fromordinal; REUSE: one parsed token / Selector evaluated 3-6 times with different '
-        'variable maps and implicit timezones through evaluate / select / Selector.select / Selector.iter_select; plus HISTORIES: one value object (passed via variables=, or bound '
+        'variable maps and implicit timezones through token.evaluate / token.select / Selector.select / Selector.iter_select / the module-level '
+        'select() and iter_select() (timezone= as object or string, the value via variables= or item=), incl. fn:implicit-timezone(); plus HISTORIES: one value object (passed via variables=, or bound '
         'by for/let) goes through 2-4 adjust-*-to-timezone / component-extraction / ± duration / comparison / difference calls, each '
         'result compared with model and spec computed from the ORIGINAL value and the argument object compared with its state before '
         'the call (xs:dateTime, xs:date, xs:time; with and without implicit timezone); classes DateTime/DateTime10/Date/Date10; 30% through '
@@ -1795,7 +1887,7 @@ def correspond(run: Run) -> None:
         compare(run, cases[i:i + 20000])
     compare(run, [dict(c) for c in EXT_CORPUS] + gen_ext_cases(rng, run.scale(5000, 80000)) + gen_dur_cases(rng, run.scale(3000, 50000))
             + gen_lex_cases(rng, run.scale(4000, 60000)))
-    compare_reuse(run, [gen_reuse(rng) for _ in range(run.scale(300, 6000))])
+    compare_reuse(run, [gen_reuse(rng) for _ in range(run.scale(200, 5000))])
     hists = [dict(c) for c in HIST_CORPUS] + [gen_hist(rng) for _ in range(run.scale(3000, 40000))]
     for i in range(0, len(hists), 5000):
         compare_hist(run, hists[i:i + 5000])
